@@ -113,6 +113,8 @@ Emit(st, bytes, sid) ==
   ELSE LET s == st.segs[st.cur]
            n == Len(bytes) IN
        IF s.pc > 65535 \/ s.pc + n > 65536 THEN Err(st, [k |-> "range", sid |-> sid])
+       ELSE IF s.pc + s.toff < 0 \/ s.pc + s.toff + n > 65536 THEN Unspec(st)     \* a relocated segment pushed outside the address space
+
        ELSE LET mem2 == [a \in s.pc..(s.pc + n - 1) |-> bytes[a - s.pc + 1]] @@ s.mem IN
             [st EXCEPT !.segs[st.cur].mem = mem2, !.segs[st.cur].pc = s.pc + n,
                        !.segs[st.cur].rlo = IF ~s.touched \/ s.pc < s.rlo THEN s.pc ELSE s.rlo,
